@@ -17,6 +17,10 @@ CLAIMED["C14"] = dict(level="exploration", ref="DESIGN.md section 4 C14",
    text="Seeded search over attribute-nested object graphs (names repeated across levels) x skip sets (present/absent names at any depth, lists of types incl. a base class) x stores x I/O schedules; six save/load histories (skip at save, at load, split, second generation, by type) are executed under the simulated zarr loop and each result is compared with a pruning reference model applied to the unskipped round trip; confluence save-skip == load-skip is checked pairwise.",
    note="Trusts graphs.equal and the pruning model (attribute paths removed by name at every attribute-nested level; isinstance for types on the original values). Load-time type skipping and AutoSerialize objects inside containers are outside the property and not generated.",
    technique="deterministic simulation: seeded save/load histories with skip lists under a virtual-time zarr loop, pruning reference model + confluence check")
+CLAIMED["C19"] = dict(level="exploration", ref="DESIGN.md section 4 C19",
+   text="Seeded operation histories (set mapping/kwargs, nested with-blocks incl. exceptions inside, update_defaults, refresh, get, accepted and rejected device requests; '-'/'_' spellings; flat and dotted keys) on private containers and on the process-global store, stepped in lock-step against a dictionary reference model; the whole store is compared with the model after every operation. Sampling of histories with swarm-selected alphabets; a clean run is evidence for the explored histories only.",
+   note="Trusts the reference model in qsim/props/c19.py (dask semantics documented in config.py docstrings). Generator restrictions (single-separator keys, fixed key roles, disjoint value pools, lone device requests) are listed in evidence assumptions. No GPU: device clauses are exercised as rejections plus the cpu spellings.",
+   technique="deterministic history simulation: seeded operation sequences incl. rejected operations stepped against an executable reference model, ddmin-minimised replays")
 NA = {
  "C02": "single evaluation of a deterministic forward model at a known ground truth; no schedule, state, fault or persistence in the claim - a simulator would only be an input generator",
  "C06": "conservation laws of bin/fourier_resample/pad/crop as pure array->array maps (the operation-history aspect of the same methods is claimed under C03)",
@@ -29,7 +33,7 @@ NA = {
  "C17": "unwrapping is a deterministic function of field and mask; its merge order is fixed by the input, not by a scheduler",
  "C20": "range/monotonicity/inverse identities of stateless maps",
 }
-PENDING = {k: "claimed in DESIGN.md (section 4); its check is still under construction in this build session and therefore not yet registered" for k in ["C03","C04","C05","C09","C11","C18","C19"]}
+PENDING = {k: "claimed in DESIGN.md (section 4); its check is still under construction in this build session and therefore not yet registered" for k in ["C03","C04","C05","C09","C11","C18"]}
 
 def main():
     checks = []
